@@ -1574,11 +1574,9 @@ func TestConcFindings(t *testing.T) {
 	if evid.Mine(3) {
 		if n, detail := probeDeferredClose(2000); n > 0 {
 			c := map[string]any{"kind": "probe", "probe": "deferred", "iterations": 2000}
-			if evid.Finding("C10-deferred-close-race", "probe-deferred-close-race", c, "%d of 2000 runs of {two calls ended by context-done || call; Close} on one instance (WithCloseOnContextDone) failed an oracle\n%s", n, detail) {
-				t.Fail()
-			}
-		} else {
-			evid.Note("C10-deferred-close-race: no failure in 2000 runs of the probe")
+			// C10-deferred-close-race (fixed by bb97b82): any recurrence is a violation
+			evid.Violation("probe-deferred-close-race", c, "%d of 2000 runs of {two calls ended by context-done || call; Close} on one instance (WithCloseOnContextDone) failed an oracle\n%s", n, detail)
+			t.Fail()
 		}
 	}
 	if evid.Mine(2) {
